@@ -74,6 +74,12 @@ CHECKS = {
             "by computation).  Unambiguity and non-ASCII identifier validity are FALSE on the faithful model (C12_*_refuted) and recorded as findings K1-K4.  "
             "Names.v is tied to the code by evaluating both mappings in Coq on thousands of code points/strings per run.",
             "full for what holds; the injectivity / non-ASCII / class-name-collision halves are recorded findings"),
+    "C05": ("Coq theorems on Validate.build (no-value law for every element kind, never rejects, declared-member lemma, placeholder mechanism: supplied wins / omitted is visited) + vm_compute correspondence of constructed results on all subsets of supplied properties + direct oracle",
+            "C05_no_value_law and C05_no_value_never_rejects hold for every element and model class; C05_declared_member, C05_supplied_wins and "
+            "C05_omitted_is_visited describe, for every object, which element builds each declared property from what (its own value or no value) under which "
+            "name.  The composition of these into one end-to-end statement about the result dict is checked, not proved: Validate.build is run in Coq on every "
+            "subset case and must return exactly the implementation's result.  Findings K12-K14 recorded; F6 fixed (6ad4bca).",
+            "full for the no-value law; object half = lemmas + correspondence (end-to-end composition not proved)"),
 }
 
 REASONS_PENDING = "check under construction in this session: not yet claimed"
